@@ -236,7 +236,7 @@ pub fn oracle_multisource(w: &mut Worker, case: &Case) -> Vec<Violation> {
         }
         return v;
     }
-    if case.name.contains("broken-winner") {
+    if case.name.contains("broken-winner") && case.steps.len() > first + 1 {
         // the pipeline stops at the first failing step, so run the model (single-source) compile alone
         w.stats.nontrivial.insert(rng::hash_bytes(case.name.as_bytes()));
         let model = w.run_step_after_golden(case, &outs, first + 1);
